@@ -714,6 +714,7 @@ Proof.
   - now apply tshape_same.
   - apply chunk_shape. - apply drop_stream_shape. - apply drop_chunk_shape.
   - now apply tshape_same. - apply create_shape.
+  - apply tshape_same, in_publish_tasks.
 Qed.
 
 Ltac dinv' I := pose proof I as [i_len0 i_sorted0 i_ws0 i_wsnd0 i_swait0 i_inf0 i_infnd0 i_txnd0 i_ids0 i_rxm0 i_rxmk0 i_rxmc0
@@ -999,6 +1000,7 @@ Proof.
   - unfold do_set_cap. rewrite wake_eq. reflexivity.
   - apply close_rxm. - unfold do_force_close. rewrite clear_queues_eq. reflexivity.
   - apply chunk_rxm. - apply drop_stream_rxm. - apply drop_chunk_rxm. - apply create_rxm.
+  - apply (in_publish_fields s id).
 Qed.
 
 Lemma rcpt_step s o : sink_inv s -> settled s -> rcpt_inv s -> comp_ok_step s o = true -> rcpt_inv (sink_op s o).
@@ -1015,7 +1017,7 @@ Proof.
       - now apply step_shape.
       - intros c A L. now apply step_nf with ks.
       - intros id. now rewrite step_rxm. }
-    destruct o as [t k i z|t|t|l|t|t|on|n| | |n|t n|t|t| |t k i z]; try (apply GEN; discriminate); cbn [sink_step comp_ok_step] in *.
+    destruct o as [t k i z|t|t|l|t|t|on|n| | |n|t n|t|t| |t k i z|ip]; try (apply GEN; discriminate); cbn [sink_step comp_ok_step] in *.
     - apply rcpt_ack_list; auto. now exists ks.
     - apply rcpt_release with ks s0 t; auto.
     - apply rcpt_release with ks s0 t; auto. }
